@@ -14,6 +14,7 @@ from __future__ import annotations
 
 import gc
 import importlib
+import tempfile
 import json
 import multiprocessing as mp
 import os
@@ -104,8 +105,12 @@ def write_evidence(pid, mod, tier, seed, acc, wall, n_viol, extra=None):
         'coverage': cov, 'assumptions': list(mod.ASSUMPTIONS),
         'wall_s': round(wall, 2), 'violations': n_viol,
     }
-    os.makedirs(os.path.join(VERIF, 'evidence'), exist_ok=True)
-    path = os.path.join(VERIF, 'evidence', f'{pid}.json')
+    # a run against a scratch copy of the repository (VERIF_REPO, mutation demos) is no evidence
+    # about /repo: its file goes to a scratch directory
+    evdir = (os.path.join(tempfile.gettempdir(), 'vt-scratch-evidence')
+             if os.environ.get('VERIF_REPO') else os.path.join(VERIF, 'evidence'))
+    os.makedirs(evdir, exist_ok=True)
+    path = os.path.join(evdir, f'{pid}.json')
     tmp = path + '.tmp'
     with open(tmp, 'w') as f:
         json.dump(ev, f, indent=1, default=repr)
